@@ -38,7 +38,6 @@ ASSUMPTIONS = ["supported subset: scalar/1-D/2-D Real variables, Boolean variabl
                "representable points (plus operator identity in the MX tree for each of them)",
                "all branches of an if are defined at the evaluation point (strict semantics in the model)"]
 
-POINT_KEYS_DROP = ()
 
 
 # =============================================================================================
@@ -104,7 +103,6 @@ def check_case(ctx, case, drv, expect_reject=False):
             if drv is not None and ans["dae"]["gen"]["ok"] and ans["initial"]["gen"]["ok"]:
                 ctx.disagreement("rejection", jcase, "model translates it", err)
             return "rejected"
-        known_before = len(ctx.known_hits), ctx.stats.get("known-finding-total", 0)
         nv = len(ctx.violations)
         ctx.violation(what, jcase, expected="a residual function", observed=err, kind="input")
         if len(ctx.violations) == nv:     # matched a listed finding: the model must reproduce it
@@ -116,10 +114,11 @@ def check_case(ctx, case, drv, expect_reject=False):
         if drv is not None and not (ans["dae"]["gen"]["ok"] and ans["initial"]["gen"]["ok"]):
             ctx.disagreement("rejection", jcase, ans["dae"]["gen"], "real code translates it")
         return "translated"
-    # ---- values
+    # ---- values: first the direct oracle on the real code, then the model
     exact_points = 0
     entries = 0
     defect_seen = False
+    compare = []      # (point index, which, real values)
     for pi, pt in enumerate(points):
         for which, key in (("dae", "equations"), ("initial", "initial_equations")):
             try:
@@ -143,23 +142,34 @@ def check_case(ctx, case, drv, expect_reject=False):
                 ctx.violation("%s residual differs from lhs - rhs of the flat equations" % which,
                               dict(jcase, point=pi, which=which), expected=flat, observed=got, kind="input")
                 if len(ctx.violations) == nv:
-                    defect_seen = True
+                    defect_seen = True      # a listed finding: the model of the code must show it too
                 else:
-                    continue
-            if drv is not None and ans[which]["gen"]["ok"]:
-                a = ans[which]["points"][pi]
-                for side in ("c",) + (("m",) if stream in ("main", "sweep", "stepped") else ()):
-                    mv = None if a[side] is None else [x for eq in a[side] for x in eq]
-                    if mv != got:
-                        ctx.disagreement("residual-" + ("gen" if side == "c" else "meaning"), dict(jcase, point=pi, which=which),
-                                         mv, got)
-            elif drv is not None:
-                ctx.disagreement("translation", dict(jcase, which=which), ans[which]["gen"], "real code translates it")
+                    continue                # an unlisted violation: reported, nothing to compare
+            compare.append((pi, which, got, flat == got))
     ctx.count("exact-point-evaluations", exact_points)
     ctx.count("residual-entries-compared", entries)
-    if stream not in ("main", "sweep", "stepped") and not defect_seen:
-        ctx.count("known-stream-case-without-defect:" + stream)
+    known_stream = stream in KNOWN_STREAMS
+    if known_stream and not defect_seen:
+        # the listed finding did not show on this input (e.g. it was fixed upstream): the model still
+        # describes the defective code, so it is not compared here; check.py prints the "did not reproduce" note
+        ctx.count("finding-not-reproduced:" + stream)
+        return "ok" if exact_points and entries else "trivial"
+    if drv is not None:
+        for pi, which, got, agrees in compare:
+            if not ans[which]["gen"]["ok"]:
+                ctx.disagreement("translation", dict(jcase, which=which), ans[which]["gen"], "real code translates it")
+                continue
+            a = ans[which]["points"][pi]
+            sides = ("c", "m") if (agrees and not known_stream) else ("c",)
+            for side in sides:
+                mv = None if a[side] is None else [x for eq in a[side] for x in eq]
+                if mv != got:
+                    ctx.disagreement("residual-" + ("gen" if side == "c" else "meaning"),
+                                     dict(jcase, point=pi, which=which), mv, got)
     return "ok" if exact_points and entries else "trivial"
+
+
+KNOWN_STREAMS = ("ifstmt", "emptyloop")
 
 
 def _is_json_point(p):
@@ -278,6 +288,8 @@ def sweep_cases():
     add("boolean variable", "  b = x > y;\n  z = if b then 1 else 2;\n  w = if not b then x else y;", decl="Real x, y, z, w; Boolean b;")
     add("time and parameters", "  z = time * p + x;", decl="Real x, y, z, w; parameter Real p = 2;")
     add("vector", "  v = u;\n  v[1:2] = u[3:4];\n  z = sum(v);\n  v = 2 * u - v;\n  v = u .* v / 2;\n  z = v[3] * u[2];",
+        decl="Real x, y, z, w; Real v[4]; Real u[4];")
+    add("stepped subscripts", "  v[1:2:3] = u[2:2:4];\n  v[1:3:4] = u[1:2];\n  z = sum(u[1:2:4]);\n  v[2:2:4] = 2 * u[1:2:4];",
         decl="Real x, y, z, w; Real v[4]; Real u[4];")
     add("matrix", "  m[1,2] = x;\n  m[2,3] = 2 * y;\n  m[:,1] = u[1:2];\n  z = m[2,1];\n  w = m[1,3];",
         decl="Real x, y, z, w; Real m[2,3]; Real u[4];")
@@ -424,13 +436,13 @@ def run(ctx):
         ctx.count("stream:rejected")
         check_case(ctx, c, drv, expect_reject=True)
         ctx.case(slim(dict(c, points=[a08.point_to_json(p) for p in c["points"]])), nontrivial=False)
-    n = 170 if quick else 6000
+    n = 400 if quick else 6000
     random_models(ctx, drv, n, 3 if quick else 5)
 
 
 def random_models(ctx, drv, n, npoints):
     for i in range(n):
-        if ctx.time_left() < (8 if ctx.tier == "quick" else 0):
+        if i >= 40 and ctx.time_left() < (15 if ctx.tier == "quick" else 0):
             ctx.notes.append("random models stopped by the time budget after %d" % i)
             break
         g = a08.ModelGen(ctx.rng, npoints, count=lambda k: ctx.count("g:" + k))
@@ -470,4 +482,4 @@ MANIFEST = dict(
     technique="Lean 4 proof (structural induction: translation correctness, substitution = execution) + "
               "model/implementation correspondence at exact points + direct exact oracle",
 )
-READY = False
+READY = True
